@@ -123,7 +123,41 @@ def event_coq(ev, rec):
     raise ValueError(ev)
 
 
-def run_model(cases, tag="cases"):
+def event_coq_w(ev, rec, st):
+    """Coq term of one event of a window schedule (Window.wevent); st carries which callers / the worker are in a window."""
+    p = ev.split()
+    if p[0] == "callp" and p[2] == "upsert":
+        a = p[3:]
+        if rec["ret"] and rec["ret"][0] == 7:
+            st["stepping"].add(p[1])
+        return "WUpsert1 %s %s %s %s %s %s" % (zlit(p[1]), zlit(a[0]), opt(a[1]), opt(a[2]), opt(a[3]), "true" if a[4] == "1" else "false")
+    if p[0] == "callp":
+        return "WBase (%s)" % event_coq("call " + " ".join(p[1:]), rec)
+    if p[0] == "run" and p[1] in st["stepping"]:
+        st["stepping"].discard(p[1])
+        return "WUpsert2 %s" % zlit(p[1])
+    if p[0] == "workerp":
+        return "WPut1 " + event_coq("worker", rec)[len("EWorker "):]
+    if p[0] == "runw":
+        return "WPut2"
+    return "WBase (%s)" % event_coq(ev, rec)
+
+
+def canon_window_event(ev, pending):
+    """The event name under which the observation of a window event is canonicalised (a resumed put_or_update returns what
+    the call returns)."""
+    p = ev.split()
+    if p[0] == "callp":
+        pending[p[1]] = "call " + " ".join(p[1:])
+        return pending[p[1]]
+    if p[0] == "run" and p[1] in pending:
+        return pending.pop(p[1])
+    if p[0] in ("workerp", "runw"):
+        return "worker"
+    return ev
+
+
+def run_model(cases, tag="cases", window=False):
     """cases: list of (name, cfg, [coq event terms]). Returns {name: [dump per event]} by vm_compute inside coqc."""
     ensure_dirs()
     if not cases:
@@ -136,11 +170,14 @@ def run_model(cases, tag="cases"):
         idx, chunk = idx_chunk
         vfile = os.path.join(TMP, "%s_%d.v" % (tag, idx))
         with open(vfile, "w") as f:
-            f.write("From CacheD Require Import Model.\nOpen Scope Z_scope.\n")
+            f.write("From CacheD Require Import %s.\nOpen Scope Z_scope.\n" % ("Window" if window else "Model"))
             for n, (name, cfg, evs) in enumerate(chunk):
                 f.write("Definition cfg_%d : config := %s.\n" % (n, cfg_coq(cfg)))
-                f.write("Definition evs_%d : list event := [\n  %s].\n" % (n, ";\n  ".join(evs)))
-                f.write("Eval vm_compute in (trace cfg_%d (init cfg_%d) evs_%d).\n" % (n, n, n))
+                f.write("Definition evs_%d : list %s := [\n  %s].\n" % (n, "wevent" if window else "event", ";\n  ".join(evs)))
+                if window:
+                    f.write("Eval vm_compute in (wtrace cfg_%d (winit cfg_%d) evs_%d).\n" % (n, n, n))
+                else:
+                    f.write("Eval vm_compute in (trace cfg_%d (init cfg_%d) evs_%d).\n" % (n, n, n))
         out = coqc_eval(vfile)
         vals = parse_coq_values(out)
         if len(vals) != len(chunk):
@@ -305,9 +342,10 @@ def compare_event(cfg, ev, rec, dump):
     return None
 
 
-def correspond(binary, schedules, tag="sched"):
+def correspond(binary, schedules, tag="sched", window=False):
     """Runs every schedule on both sides. Returns (divergences, impl traces, stats).
-    A divergence is a dict with the schedule, the event index, the field, the component and both values."""
+    A divergence is a dict with the schedule, the event index, the field, the component and both values.
+    window=True: schedules with overtaking (callp / workerp / runw), evaluated on the window model (Window.v)."""
     impl = run_impl(binary, schedules, tag)
     cases = []
     kept = {}
@@ -317,14 +355,24 @@ def correspond(binary, schedules, tag="sched"):
             raise Broken("harness-run", "case %s: %d events in, %d records out" % (s["name"], len(s["events"]), len(recs)), schedule=s)
         evs = []
         pairs = []
+        st = dict(stepping=set())
+        pending = {}
         for ev, rec in zip(s["events"], recs):
             if rec["skipped"]:
                 continue
-            evs.append(event_coq(ev, rec))
-            pairs.append((ev, rec))
+            if window:
+                evs.append(event_coq_w(ev, rec, st))
+                cev = canon_window_event(ev, pending)
+                if rec["ret"] and rec["ret"][0] == 7:
+                    rec = dict(rec, ret=[9])        # stopped at the schedule point
+                    cev = "call 0 point" if ev.split()[0] in ("workerp", "runw") else cev
+                pairs.append((cev, rec))
+            else:
+                evs.append(event_coq(ev, rec))
+                pairs.append((ev, rec))
         kept[s["name"]] = pairs
         cases.append((s["name"], s["cfg"], evs))
-    model = run_model(cases, tag)
+    model = run_model(cases, tag, window=window)
     divs = []
     for s in schedules:
         pairs = kept[s["name"]]
@@ -332,7 +380,10 @@ def correspond(binary, schedules, tag="sched"):
         if len(dumps) != len(pairs):
             raise Broken("model-eval", "case %s: %d events, %d dumps" % (s["name"], len(pairs), len(dumps)))
         for i, ((ev, rec), dump) in enumerate(zip(pairs, dumps)):
-            d = compare_event(s["cfg"], ev, rec, dump)
+            if window and ev == "worker" and dump[0] == [9]:
+                d = ("ret", [9], "the worker ran the command to its end")      # the model stops at the point, the code did not
+            else:
+                d = compare_event(s["cfg"], ev, rec, dump)
             if d is not None:
                 divs.append(dict(schedule=s, event_index=rec["i"], event=ev, field=d[0], component=FIELD_COMPONENT.get(d[0], "api"),
                                  model=d[1], impl=d[2]))
